@@ -125,6 +125,15 @@ class C17(vlib.Check):
                 pairs.append((t + b'{}' + t, ['i32:7']))
             pairs.append((b'{%d}|' % (block + 3), ['s:' + hx(U('é'))]))
             pairs.append((b'{>%d}' % (block + 1), ['i32:-5']))
+        # long chunks that are NOT well-formed UTF-8 (runs of continuation bytes, of lead bytes, truncated characters every
+        # few bytes): every sink must end — the wide sinks with unicode_error — whatever the length (a block-wise
+        # transcoder that searches backwards for a character boundary may find none within its block)
+        for n in (1025, 1500, 2049, 3000):
+            for fill in (b'\x80', b'\xbf', b'\xc3', b'\xe2\x82', b'\xf0\x9f\x98'):
+                t = (fill * n)[:n]
+                pairs.append((b'{}', ['S:' + hx(t)]))
+                pairs.append((b'x' + t + b'{}', ['i32:1']))
+                pairs.append((b'{}', ['s:' + hx(b'a' + t)]))
         # seeded soups
         nrand = 500 if quick else 12000
         for _ in range(nrand):
@@ -245,7 +254,9 @@ class C17(vlib.Check):
 
     def known(self, case, impl, spec):
         t = case.split()
-        if t[0] == 'format' and t[1] in WIDE and ' # ' in spec:
+        # the listed finding is a DIFFERENT OUTPUT or a unicode_error from a call that returns; a crash, an assertion or a
+        # hang on the same inputs is not it
+        if t[0] == 'format' and t[1] in WIDE and ' # ' in spec and impl.startswith('OK '):
             facts = dict(x.split('=') for x in spec.split(' # ')[1].split())
             if facts.get('chunk_bad') == '1' or facts.get('pad_hi') == '1':
                 return 'wide-sink-per-chunk'
